@@ -65,6 +65,7 @@ type Member struct {
 	notifInFlight int
 	notifCount    int
 	phase         string // open | closing | closed | opening (from the lifecycle callbacks)
+	hookScrape    map[string]bool // lifecycle callbacks inside which the application scrapes (C16)
 }
 
 func (m *Member) tag(role string) string { return fmt.Sprintf("m%d%s", m.id, role) }
@@ -208,7 +209,19 @@ func (h handler) ev(name string) {
 	case "AfterStreamStop":
 		h.m.phase = "closed"
 	}
+	hook := h.m.hookScrape[name] && h.m.d != nil && !h.m.scraping
+	if hook {
+		h.m.scraping = true
+	}
 	h.m.w.mu.Unlock()
+	if hook {
+		defer func() { h.m.w.mu.Lock(); h.m.scraping = false; h.m.w.mu.Unlock() }()
+		h.m.w.probe("scrape-inside-callback:" + name)
+		id := fmt.Sprintf("hs%d.%s", h.m.id, name)
+		h.m.w.jl(&journal.Ev{K: journal.KCall, M: h.m.id, Vb: -1, S: "scrape", ID: id, S2: "inside " + name})
+		res := h.m.collect()
+		h.m.w.jl(&journal.Ev{K: journal.KRet, M: h.m.id, Vb: -1, S: "scrape", ID: id, S2: res})
+	}
 }
 func (h handler) BeforeRebalanceStart() { h.ev("BeforeRebalanceStart") }
 func (h handler) AfterRebalanceStart()  { h.ev("AfterRebalanceStart") }
